@@ -69,6 +69,10 @@ def check_log(ctx, log, iname, fresh_solver=None, expect_restart=False):
     # (5) iteration counter and stop criteria
     ctx.true("nit", log.nit == N and traj[-1]["nit"] == N, "solve/nit-not-number-of-main-steps", {"nit()": log.nit, "main steps": N}, cls="nit")
     ctx.true("totnit", log.totnit == log.itstart + N, "solve/totnit", {"totnit": log.totnit, "itstart": log.itstart, "N": N}, cls="nit")
+    if getattr(log, "api", None):
+        # the iteration offset as the API defines it: 0 for solve(), the iteration tag of the start field for restart()
+        exp_it = 0 if log.api["method"] == "solve" else max(int(log.f_before["it"]), 0)
+        ctx.true("totnit", log.itstart == exp_it, "solve/iteration-offset-not-from-the-call", {"method": log.api["method"], "offset used": log.itstart, "expected": exp_it}, cls="nit")
     crit = {}
     if log.tsave:
         crit["tottime"] = log.tsave[-1]
